@@ -1,10 +1,10 @@
 (* C17 — URIs get RFC 7064/7065 defaults, round-trip, and dial the transport they name.
    Property theorems only.  [parse_uri] is ParseURI after the fix: commits (no self-call, port range
-   checked); the round trip String -> ParseURI is tied to the code by the harness on every accepted URI and
-   is proved here for the shape lemmas it rests on; see DESIGN.md for the one recorded exception
+   checked); the round trip String -> ParseURI is proved for every URI with a usable host (C17_roundtrip) and tied to
+   the code by the harness on every accepted URI; see DESIGN.md for the one recorded exception
    (a bracketed host starting with '/'). *)
 From Coq Require Import NArith ZArith List Bool.
-From StunV Require Import Base.ListAux Base.Outcome Model.Uri Proofs.UriProofs.
+From StunV Require Import Base.ListAux Base.Outcome Model.Uri Proofs.UriProofs Proofs.UriRoundTripProofs.
 Import ListNotations.
 Open Scope N_scope.
 
@@ -45,6 +45,24 @@ Theorem C17_dial_never_plaintext_secure : forall s p, (s = SchSTUNS \/ s = SchTU
   dial_of s p <> PlainUDP /\ dial_of s p <> PlainTCP.
 Proof. exact dial_never_plaintext_secure. Qed.
 Print Assumptions C17_dial_never_plaintext_secure.
+
+(* ROUND TRIP, for every URI: a URI with a known scheme/transport pair, a port in 0..65535 and a usable
+   host (non-empty; no control character; none of # ? [ ]; not starting with '/') is reproduced exactly by
+   ParseURI (u.String()) — reg-names, IPv4 and IPv6 literals alike (any host containing ':' is bracketed
+   by String and un-bracketed by ParseURI) *)
+Theorem C17_roundtrip : forall u, wf_uri u -> parse_uri (uri_string u) = Ok u.
+Proof. exact roundtrip. Qed.
+Print Assumptions C17_roundtrip.
+(* in particular every ACCEPTED URI with a usable host; the only accepted URIs outside are those whose
+   bracketed host smuggles in a character a host cannot have — the recorded slash-host finding below *)
+Theorem C17_accepted_roundtrip : forall s u, parse_uri s = Ok u -> host_ok (u_host u) = true ->
+  parse_uri (uri_string u) = Ok u.
+Proof. exact accepted_roundtrip. Qed.
+Print Assumptions C17_accepted_roundtrip.
+Example C17_roundtrip_nonvacuous :
+  wf_uri (mkUri SchTURNS [58;58;49] 5349 PrTCP) /\ wf_uri (mkUri SchSTUN [101;120;46;111;114;103] 0 PrUDP) /\
+  host_ok [47;120] = false.
+Proof. vm_compute. repeat split; intros; discriminate. Qed.
 
 (* default ports and round trips on concrete instances of every host form (reg-name, IPv4, IPv6) *)
 Definition S (l : list N) := l.
